@@ -376,6 +376,9 @@ def parse_ip(ip: bytes) -> Node:
     Returns:
         A node with the normalized IPv4 address as it's value.
     """
+    if ip.split() != [ip]:
+        # inet_aton ignores anything that follows white space
+        raise ValueError(f"{ip!r} is not an IPv4 address")
     try:
         address = IPv4Address(socket.inet_aton(ip.decode()))
     except (OSError, AddressValueError, UnicodeDecodeError) as ex:
